@@ -128,6 +128,64 @@ def file_and_convert(ctx, b, label, rng):
         shutil.rmtree(d, ignore_errors=True)
 
 
+def nwchem_layout(ctx, b, label):
+    """layer (b): the modelled NWChem electron section (coq/Model/Nwchem.v, round trip proved in Proofs/NwchemSpec.v) against
+    writers/nwchem.py and readers/nwchem.py on the same shells.  The writer's two normalisation calls are the modelled
+    manipulation pipeline (C02/C04); here their result is taken from the implementation and the layout is compared."""
+    from basis_set_exchange import writers, readers, manip, sort
+    if ctx.model is None or not any('electron_shells' in el for el in b['elements'].values()):
+        return
+    w = impl.call(writers.write_formatted_basis_str, copy.deepcopy(b), 'nwchem')
+    if w[0] != 'ok' or len(w[1]) > 200000:
+        return
+    text = w[1]
+    section = text[:text.index('END\n') + 4]
+    pb = impl.call(lambda x: sort.sort_basis(manip.uncontract_spdf(x, 1, True), False), copy.deepcopy(b))
+    if pb[0] != 'ok':
+        return
+    harm = 'cartesian' if 'gto_cartesian' in b['function_types'] else 'spherical'
+    els = [[int(z), el['electron_shells']] for z, el in pb[1]['elements'].items() if 'electron_shells' in el]
+    replay = {'kind': 'nwchem-layout', 'label': label, 'input': b if len(str(b)) < 15000 else None}
+    ctx.case((label, 'nwchem-layout'), True, 'nwchem-layout')
+    ctx.compare('nw_write_electron', ('ok', section), ctx.model.call('nw_write_electron', harm, els), replay)
+    # the reader on exactly this text, and on a damaged variant of it
+    for variant, lines in (('as-written', section.splitlines()), ('damaged', damage_lines(section.splitlines(), random.Random(len(section))))):
+        r = impl.call(readers.read_formatted_basis_str, '\n'.join(lines) + '\n', 'nwchem')
+        got = r
+        if r[0] == 'ok':
+            got = ('ok', [[int(z), el.get('electron_shells', [])] for z, el in r[1]['elements'].items()])
+        ctx.case((label, 'nwchem-read', variant), True, 'nwchem-read:' + variant)
+        ctx.compare('nw_read_electron', norm_read(got), norm_read(ctx.model.call('nw_read_electron', lines)), dict(replay, variant=variant))
+
+
+def norm_read(r):
+    if r[0] != 'ok':
+        return ('error', 'any')      # the reader's error classes (RuntimeError / KeyError / IndexError ...) are not part of the property
+    return r
+
+
+def damage_lines(lines, rng):
+    """one small damage to a written text (what a hand edit or a truncated file looks like)"""
+    lines = list(lines)
+    k = rng.randrange(7)
+    i = rng.randrange(len(lines))
+    if k == 0:
+        del lines[i]
+    elif k == 1:
+        lines.insert(i, lines[i])
+    elif k == 2:
+        lines[i] = lines[i].replace('E', 'D')
+    elif k == 3:
+        lines[i] = lines[i] + '  0.5'
+    elif k == 4:
+        lines[i] = lines[i].lower()
+    elif k == 5:
+        lines = [l for l in lines if l.strip().upper() != 'END']
+    else:
+        lines[i] = '   ' + lines[i] + '   '
+    return lines
+
+
 def matrix_cases(ctx, rng):
     """layer (a): the matrix printer and the numeric-table parser against the extracted model"""
     from basis_set_exchange import printing
@@ -179,6 +237,7 @@ def work_store(ctx, item):
     label = '%s/%s[%s]' % (name, version, ','.join(b['elements']))
     for fmt in rw_formats():
         roundtrip(ctx, b, fmt, label, 'store')
+    nwchem_layout(ctx, b, label)
     if rng.random() < (1.0 if ctx.thorough() else 0.4):
         file_and_convert(ctx, b, label, rng)
     ctx.sample({'store': label, 'formats': rw_formats()})
@@ -202,6 +261,7 @@ def work_generated(ctx, seed):
         b = gen.gen_basis(rng, ecp_prob=0.4)
     for fmt in rw_formats():
         roundtrip(ctx, b, fmt, 'gen:%d:%s' % (seed, kind), 'generated:' + kind)
+    nwchem_layout(ctx, b, 'gen:%d:%s' % (seed, kind))
     if seed % 5 == 0 and kind == 'plain':
         file_and_convert(ctx, b, 'gen:%d' % seed, rng)
 
